@@ -20,54 +20,6 @@ From BFS Require Import Spec.CopySpecs.
 From BFS Require Import Proofs.BackupCopy Proofs.BackupTry Proofs.BackupRollback Proofs.BackupC01.
 From BFS Require Import Spec.ViewOsfs Proofs.LawsOsfs.
 
-Section C02.
-  Variables base backup : fsapi.
-  Variables Vb Vk : world -> store.
-  Variables tnb tnk : str -> str.
-  Variables accb acck : str -> str -> Prop.
-  Variables rhb rhk whb whk : fhandle -> str -> nat -> Prop.
-  Variable B0 : store.
-
-  (** what the invariant says about originals and about the backup *)
-  Lemma inv_recoverable : forall w, Inv Vb Vk B0 w ->
-    (forall p n0, B0 !! p = Some n0 -> p <> s_root ->
-       sonode_eqv (Vb w !! p) (Some n0) \/
-       exists nk, Vk w !! p = Some nk /\ copy_of n0 nk) /\
-    (forall p, p <> s_root -> Vk w !! p <> None ->
-       exists n0 nk, B0 !! p = Some n0 /\ Vk w !! p = Some nk /\ copy_of n0 nk).
-  Proof.
-    intros w HI. split.
-    - intros p n0 Hp Hne. destruct (w_infos w !! p) as [[fi|]|] eqn:E.
-      + destruct (inv_some _ _ _ _ HI p fi E) as (n0' & Hn0' & _ & [Hr | (nk & Hk & Hc)]);
-          [contradiction|].
-        rewrite Hp in Hn0'. injection Hn0' as <-. right. exists nk. split; assumption.
-      + pose proof (inv_none _ _ _ _ HI p E) as Hn. rewrite Hp in Hn. discriminate Hn.
-      + left. pose proof (inv_untracked _ _ _ _ HI p E) as H. rewrite Hp in H. exact H.
-    - intros p Hne Hk. destruct (inv_backup_only _ _ _ _ HI p Hne Hk) as (fi & E).
-      destruct (inv_some _ _ _ _ HI p fi E) as (n0 & Hn0 & _ & [Hr | (nk & Hk' & Hc)]);
-        [contradiction|].
-      exists n0, nk. split; [exact Hn0 | split; [exact Hk' | exact Hc]].
-  Qed.
-
-  Lemma c02_between_operations :
-    base_laws base Vb Vk tnb accb rhb whb -> base_laws2 base Vb Vk tnb accb rhb whb ->
-    backup_laws backup Vb Vk tnk acck rhk whk ->
-    all_small B0 ->
-    forall w0 ops w, initial Vb Vk tnb tnk accb acck B0 w0 -> good_run base backup Vb w0 ops w ->
-    (forall p n0, B0 !! p = Some n0 -> p <> s_root ->
-       sonode_eqv (Vb w !! p) (Some n0) \/
-       exists nk, Vk w !! p = Some nk /\ copy_of n0 nk) /\
-    (forall p, p <> s_root -> Vk w !! p <> None ->
-       exists n0 nk, B0 !! p = Some n0 /\ Vk w !! p = Some nk /\ copy_of n0 nk).
-  Proof.
-    intros HLb HLb2 HLk Hsmall w0 ops w Hinit Hrun.
-    pose proof Hinit as (_ & _ & _ & HwfB & Hlinks & _ & _).
-    apply inv_recoverable.
-    eapply (good_run_inv base backup Vb Vk tnb tnk accb acck rhb rhk whb whk B0);
-      [exact HLb | exact HLb2 | exact HLk | exact Hlinks | exact Hsmall | exact HwfB | exact Hrun |].
-    apply (initial_inv_spec Vb Vk tnb tnk accb acck B0 w0 Hinit).
-  Qed.
-End C02.
 
 Theorem C02_between_operations_partial :
   forall base backup Vb Vk tnb tnk accb acck rhb rhk whb whk B0,
@@ -80,7 +32,7 @@ Theorem C02_between_operations_partial :
        exists nk, Vk w !! p = Some nk /\ copy_of n0 nk) /\
     (forall p, p <> s_root -> Vk w !! p <> None ->
        exists n0 nk, B0 !! p = Some n0 /\ Vk w !! p = Some nk /\ copy_of n0 nk).
-Proof. exact c02_between_operations. Qed.
+Proof. exact recoverable_between_operations. Qed.
 Print Assumptions C02_between_operations_partial.
 
 (** the same, closed, for the concrete layering base = PrefixFS([pa]), backup =
